@@ -36,7 +36,7 @@ for _pid, _title, _text in [
     PROPS[_pid] = {"units": ["parse"], "kani": [], "replay": [], "title": _title, "level": "proof", "level_text": _text, "level_note": _PARSE_NOTE, "design_ref": "DESIGN.md §6.1"}
 
 PROPS["C02"]["units"] = ["parse", "index", "object"]
-PROPS["C02"]["level_note"] = _PARSE_NOTE + " Key lookups: Object queries proved equal to a linear scan over the entries (unit object) under the assumed IndexMap contract; Indexes proved (unit index)."
+PROPS["C02"]["level_note"] = _PARSE_NOTE + " Key lookups: every lookup of Object -- get, get_entries, get_with_index, get_entries_with_index (their four macro-generated iterators taken from the macro-expanded crate, R13), indexes_of, index_of, redundant_index_of, contains_key, get_unique, get_unique_entry -- is proved to answer as a linear scan over the entries does, in document order (`positions(list, key)`), from the representation invariant wf() that every mutating operation re-establishes (unit object), under the assumed IndexMap contract; the adapter tail `.map(IntoIterator::into_iter).unwrap_or_default()` is modelled (R12); Indexes proved (unit index). Not under contract: get_mut / get_unique_mut / ValuesMut (unsafe transmute, &mut returns)."
 PROPS["C14"] = {
     "units": ["object"], "kani": [], "replay": [], "title": "Equality, ordering and hashing depend only on content", "level": "proof",
     "level_text": "Frame contracts: Object's PartialEq/PartialOrd/Ord/Hash results are functions of the two entry sequences only (they delegate to Vec<Entry>), for every object and every state of the key index; together with C06 (the entry sequence is determined by the list model, not by the history) this gives history independence.",
